@@ -2,7 +2,7 @@ SPECIFICATION Spec
 CONSTANTS Acct <- AcctC
  KindsOf <- @KINDS@
  BaseSet <- BaseNeg
- MaxSteps = 7
+ MaxSteps = @STEPS@
  MaxSnap = 2
  WithSeal = TRUE
  FreeVals = FALSE
